@@ -669,8 +669,8 @@ def symbolic_run(contract: Contract, tier="quick", mutate=None, stop_on=None) ->
     timeout = contract.timeout_quick if tier == "quick" else contract.timeout_thorough
     budget = contract.budget_quick if tier == "quick" else contract.budget_thorough
     if mutate is not None:
-        timeout = min(timeout, 10)  # canary runs only need the refutation, which is fast
-        budget = 90
+        timeout = min(timeout, 15)  # canary runs only need the refutation, which is fast
+        budget = 300  # generous: a loaded machine must not turn a caught mutant into "not caught"
     try:
         pf, sha = contract.load()
         res.sha = sha
